@@ -1,10 +1,9 @@
 (** C13 — model of what [GrafeoDB::execute_sparql] does with a query of the core:
     sparql_translator.rs (group translation, literal_to_value), planner_rdf.rs (triple scans,
     joins on equal column names, left joins, positional union, filter evaluation over rendered
-    strings, DISTINCT skipped, projection/sort by column name) and the physical operators of
+    strings, projection/sort by column name) and the physical operators of
     grafeo-core/src/execution/operators it is planned onto (NestedLoopJoin, Filter, Project,
-    Sort, Skip, Limit, SimpleAggregate) including the chunk/validity behaviour of
-    [ValueVector::push_value].  Definitions only.  This is a transcription of the code as it is,
+    Sort, Distinct, Skip, Limit, SimpleAggregate) including their chunk behaviour.  Definitions only.  This is a transcription of the code as it is,
     defects included; the W3C semantics is [GV.Rdf.Algebra]. *)
 From GV Require Export Rdf.Algebra.
 Open Scope Z_scope.
@@ -82,9 +81,9 @@ Definition chunk := list (bool * row).
 Definition live (c : chunk) : list row := map snd (filter fst c).
 Definition fresh (rs : list row) : chunk := map (fun r => (true, r)) rs.
 
-(** [ValueVector::push_value(Value::Null)] marks only the first null of a vector: the validity
-    bitmap is created at the first null and never extended, so every later null reads back as
-    the column default (the empty string).  Applied to every freshly built chunk. *)
+(** Before dfd360c [ValueVector::push_value(Value::Null)] marked only the first null of a vector:
+    the validity bitmap was created at the first null and never extended, so every later null read
+    back as the column default (the empty string).  Kept as the [_pre] transcription. *)
 Fixpoint requirk_row (seen : list bool) (r : row) : row * list bool :=
   match r with
   | [] => ([], seen)
@@ -102,9 +101,12 @@ Fixpoint requirk_rows (seen : list bool) (rs : list row) : list row :=
   | [] => []
   | r :: rest => let (r2, seen2) := requirk_row seen r in r2 :: requirk_rows seen2 rest
   end.
-(** a freshly materialised chunk (none when there is no row) *)
-Definition build (rs : list row) : list chunk :=
+Definition build_pre (rs : list row) : list chunk :=
   match rs with [] => [] | _ => [fresh (requirk_rows [] rs)] end.
+(** a freshly materialised chunk (none when there is no row); since dfd360c every null pushed
+    into a vector stays a null *)
+Definition build (rs : list row) : list chunk :=
+  match rs with [] => [] | _ => [fresh rs] end.
 
 Record tbl := Tbl { t_cols : list nat; t_chunks : list chunk }.
 
@@ -428,13 +430,10 @@ Definition project_tbl (vs : list nat) (t : tbl) : res tbl :=
   | Some idx =>
       match map_opt (fun c => map_opt (pick_strict idx) (live c)) (t_chunks t) with
       | None => Err
-      | Some cs => Done (Tbl vs (map (fun rs => fresh (requirk_rows [] rs)) cs))
+      | Some cs => Done (Tbl vs (map (fun rs => fresh rs) cs))
       end
   end.
 
-(** * the whole of [execute_sparql] for a SELECT query of the core
-    ([translate_select]: pattern, aggregate, Sort, Skip, Limit, Distinct — which [plan_operator]
-    drops —, Project unless an aggregate is selected or the projection is [*]) *)
 (** the column names of the plan of a pattern (planning does not look at the data) *)
 Definition join_cols (lc rc : list nat) : list nat :=
   lc ++ map (fun i => nth i rc O) (keep_right lc rc).
@@ -468,7 +467,46 @@ Definition plan_ok (q : query) : bool :=
           end)
   end.
 
+(** [DistinctOperator] (all columns): one output chunk per input chunk holding the rows of the
+    chunk not seen before; row keys are Null / String / Int64 per cell *)
+Definition drow_eqb : row -> row -> bool := list_eqb cell_eqb.
+Fixpoint dedup_seen (seen : list row) (rs : list row) : list row * list row :=
+  match rs with
+  | [] => ([], seen)
+  | r :: rest =>
+      if existsb (drow_eqb r) seen then dedup_seen seen rest
+      else let (out, seen') := dedup_seen (r :: seen) rest in (r :: out, seen')
+  end.
+Fixpoint distinct_chunks (seen : list row) (cs : list chunk) : list chunk :=
+  match cs with
+  | [] => []
+  | c :: r => let (out, seen') := dedup_seen seen (live c) in build out ++ distinct_chunks seen' r
+  end.
+Definition distinct_tbl (t : tbl) : res tbl :=
+  if negb (well_formed t) then Unsup else Done (Tbl (t_cols t) (distinct_chunks [] (t_chunks t))).
+
+(** the whole of [execute_sparql] for a SELECT query of the core ([translate_select] since
+    c4f453a: pattern, aggregate, Sort, Project — unless an aggregate is selected or the projection
+    is [*] —, Distinct, Skip, Limit) *)
 Definition run_select (st : store) (q : query) : res (list nat * list row) :=
+  if negb (plan_ok q) then Err else
+  bindr (plan_pat st (q_pat q)) (fun t0 =>
+  bindr (match q_proj q with
+         | ProjCount => match q_order q with [] => Done (count_tbl t0) | _ => Unsup end
+         | _ => Done t0
+         end) (fun t1 =>
+  bindr (sort_tbl (q_order q) t1) (fun t2 =>
+  bindr (match q_proj q with
+         | ProjVars ((_ :: _) as vs) => project_tbl vs t2
+         | _ => Done t2
+         end) (fun t3 =>
+  bindr (if q_distinct q then distinct_tbl t3 else Done t3) (fun t4 =>
+  let t5 := match q_offset q with Some k => Tbl (t_cols t4) (skip_chunks k (t_chunks t4)) | None => t4 end in
+  let t6 := match q_limit q with Some k => Tbl (t_cols t5) (limit_chunks k (t_chunks t5)) | None => t5 end in
+  Done (t_cols t6, all_live (t_chunks t6))))))).
+
+(** before c4f453a: Sort, Skip, Limit, Distinct (which [plan_operator] dropped), Project *)
+Definition run_select_pre (st : store) (q : query) : res (list nat * list row) :=
   if negb (plan_ok q) then Err else
   bindr (plan_pat st (q_pat q)) (fun t0 =>
   bindr (match q_proj q with
